@@ -2,13 +2,16 @@
 C03 geometry on the footnote grammar (PM stage 2b).
 
 * `layout_line_fits`, `paginate_line_fits` — every line of every page ends above the bottom of the page box, the
-  first line of the page excepted — for documents whose `@footnote` area has no bottom margin/padding/border
-  (`AreaHyp`) and whose footnote bodies have non-negative heights; through nested blocks, cloned decorations, the
-  second layout, `find_earlier_page_break`, and every footnote being laid out, postponed or un-laid-out on the way.
-  Why the hypothesis: with a bottom decoration *and* footnotes of two page names, `context.page_bottom` drifts up
-  (`corpus/C01/footnote_named_page_overlap.json`, finding footnote-named-page-area-overlap).
-* `page_bottom_exact` — under the same hypothesis `context.page_bottom` always is the page bottom minus the margin
-  height of the footnote area.
+  first line of the page excepted — for every `@footnote` style whose vertical margins/paddings/borders sum to ≥ 0
+  (`AreaHyp`; bottom decorations allowed since repair 8db5909) and footnote bodies of non-negative heights; through
+  nested blocks, cloned decorations, the second layout, `find_earlier_page_break`, and every footnote being laid
+  out, postponed or un-laid-out on the way.
+  Why the hypothesis: with a negative top margin an emptied footnote area *raises* `page_bottom` above the page
+  box (`Witness/C01Foot.area_negative_margin_overflows`, finding footnote-area-negative-margin-overflow).
+* `page_bottom_exact` — for every `@footnote` style `context.page_bottom` always is the page bottom minus the margin
+  height of the footnote area (full strength since repair 8db5909: the former witness `page_bottom_drifts` is the
+  regression example `page_bottom_no_drift`); `page_bottom_le` — and never exceeds the page box bottom under
+  `AreaHyp`.
 * the footnote area: it ends exactly at the page bottom (`area_at_page_bottom`), its footnotes are stacked without
   gap or overlap (`area_stacked`).
 -/
@@ -25,41 +28,191 @@ theorem layout_line_fits (box : FootBox) (hd : DecoOk box.erase) (hh : HeightsOk
     ∀ l ∈ placedLines f pie box.erase, l.exempt = true ∨ overflows (c.pageH - bs) (l.y + l.lineH) = false :=
   (boxF_fits box hd hh c idx y bs skip cb pie adjL fs ha hinv).1 f hf
 
-/-- **`page_bottom` bookkeeping is exact** (no bottom decoration on the area): after any layout the page bottom is
-the page box bottom minus the margin height of the footnote area (or untouched when no footnote was ever laid
-out), and never exceeds the page box bottom. -/
-theorem page_bottom_exact (box : FootBox) (hd : DecoOk box.erase) (hh : HeightsOk box) (c : FCtx) (idx : Nat)
+/-- **`page_bottom` bookkeeping is exact** (any `@footnote` style, any box styles): after any layout the page
+bottom is the page box bottom minus the margin height of the footnote area (or untouched when no footnote was ever
+laid out). -/
+theorem page_bottom_exact (box : FootBox) (hh : HeightsOk box) (c : FCtx) (idx : Nat)
+    (y bs : Rat) (skip : Option Resume) (cb pie : Bool) (adjL : List Rat) (fs : FState) (hinv : PbInv c fs) :
+    PbInv c (layoutBoxF c box idx y bs skip cb pie adjL fs).fs :=
+  boxF_inv box hh c idx y bs skip cb pie adjL fs hinv
+
+/-- … and never exceeds the page box bottom when the decorations of the area sum to ≥ 0. -/
+theorem page_bottom_le (box : FootBox) (hh : HeightsOk box) (c : FCtx) (idx : Nat)
     (y bs : Rat) (skip : Option Resume) (cb pie : Bool) (adjL : List Rat) (fs : FState) (ha : AreaHyp c.area)
-    (hinv : PbInv c fs) :
-    PbInv c (layoutBoxF c box idx y bs skip cb pie adjL fs).fs ∧
-    (layoutBoxF c box idx y bs skip cb pie adjL fs).fs.pageBottom ≤ c.pageH :=
-  ⟨(boxF_fits box hd hh c idx y bs skip cb pie adjL fs ha hinv).2,
-   ((boxF_fits box hd hh c idx y bs skip cb pie adjL fs ha hinv).2).le ha⟩
+    (hinv : PbInv c fs) : (layoutBoxF c box idx y bs skip cb pie adjL fs).fs.pageBottom ≤ c.pageH :=
+  (boxF_inv box hh c idx y bs skip cb pie adjL fs hinv).le ha
+
+/-! ### a line and the footnotes it keeps on the page -/
+
+theorem footLoop_reported_ne (c : FCtx) (guard pie : Bool) (bs y : Rat) (F : List Fn) (fs : FState)
+    (h : fs.reported ≠ []) : (footLoop c guard pie bs y F fs).2.reported ≠ [] := by
+  induction F generalizing fs with
+  | nil => exact h
+  | cons f rest ih =>
+    have h2 : (reportFootnote c (layoutFootnote c fs f).1 f).reported ≠ [] := by simp
+    unfold footLoop
+    split
+    · dsimp only
+      split
+      · split
+        · exact h2
+        · split
+          · split <;> exact h2
+          · exact ih _ h2
+      · exact ih _ (by simpa using h)
+    · exact ih _ h
+
+/-- **The line that keeps its footnotes ends above them** (C03 with footnotes: body text does not run into the
+footnote area): when the footnote loop of a line ends with every footnote of the line kept on the page (nothing
+postponed), the line — its bottom `y`, bottom padding/border included when it is the last of its box — does not
+overflow `context.page_bottom` *as it is after those footnotes were laid out*, i.e. the top of the footnote area
+that now holds them; or the line had no footnote to lay out and the state is unchanged. -/
+theorem line_above_its_footnotes (c : FCtx) (guard pie : Bool) (bs y : Rat) (F : List Fn) (fs fs' : FState)
+    (h : footLoop c guard pie bs y F fs = (.ok, fs')) (hrep : fs'.reported = []) :
+    (ctxOf c fs').overflowsPage bs y = false ∨ fs' = fs := by
+  induction F generalizing fs with
+  | nil => simp only [footLoop, Prod.mk.injEq, true_and] at h; exact Or.inr h.symm
+  | cons f rest ih =>
+    unfold footLoop at h
+    split at h
+    · dsimp only at h
+      split at h
+      · -- the footnote overflowed and was postponed: `reported` stays non-empty to the end of the loop
+        exfalso
+        have h2 : (reportFootnote c (layoutFootnote c fs f).1 f).reported ≠ [] := by simp
+        split at h
+        · simp at h
+        · split at h
+          · split at h <;> simp at h
+          · have := footLoop_reported_ne c guard pie bs y rest _ h2
+            rw [h] at this
+            exact this hrep
+      · rename_i hov
+        simp only [Bool.or_eq_true, not_or, Bool.not_eq_true] at hov
+        rcases ih _ h with h1 | h1
+        · exact Or.inl h1
+        · left; rw [h1]; exact hov.2
+    · exact ih _ h
+
+theorem updateArea_areaH_ne (c : FCtx) (g : FState) : (updateArea c g).1.areaH ≠ none := by
+  unfold updateArea; dsimp only; split <;> simp
+
+theorem footLoop_areaH_mono (c : FCtx) (guard pie : Bool) (bs y : Rat) (G : List Fn) (g : FState)
+    (hg : g.areaH ≠ none) : (footLoop c guard pie bs y G g).2.areaH ≠ none := by
+  induction G generalizing g with
+  | nil => exact hg
+  | cons x xs ih =>
+    have h1 : (layoutFootnote c g x).1.areaH ≠ none := updateArea_areaH_ne c _
+    have h2 : (reportFootnote c (layoutFootnote c g x).1 x).areaH ≠ none := updateArea_areaH_ne c _
+    unfold footLoop
+    split
+    · dsimp only
+      split
+      · split
+        · exact h2
+        · split
+          · split <;> exact h2
+          · exact ih _ h2
+      · exact ih _ h1
+    · exact ih _ hg
+
+/-- A footnote loop that leaves the area untouched (`height` still 'auto') laid nothing out. -/
+theorem footLoop_unchanged (c : FCtx) (guard pie : Bool) (bs y : Rat) (F : List Fn) (fs : FState)
+    (h : (footLoop c guard pie bs y F fs).2.areaH = none) : (footLoop c guard pie bs y F fs).2 = fs := by
+  induction F generalizing fs with
+  | nil => rfl
+  | cons f rest ih =>
+    have h1 : (layoutFootnote c fs f).1.areaH ≠ none := updateArea_areaH_ne c _
+    have h2 : (reportFootnote c (layoutFootnote c fs f).1 f).areaH ≠ none := updateArea_areaH_ne c _
+    unfold footLoop at h ⊢
+    split
+    · rename_i hp
+      rw [if_pos hp] at h
+      dsimp only at h ⊢
+      exfalso
+      split at h
+      · split at h
+        · exact h2 h
+        · split at h
+          · split at h <;> exact h2 h
+          · exact footLoop_areaH_mono c guard pie bs y rest _ h2 h
+      · exact footLoop_areaH_mono c guard pie bs y rest _ h1 h
+    · rename_i hp
+      rw [if_neg hp] at h
+      exact ih _ h
+
+/-- … and with the page-bottom invariant that is the top of the footnote area: `page_bottom = page height −
+margin height of the area`. -/
+theorem line_above_area_top (c : FCtx) (guard pie : Bool) (bs y : Rat) (F : List Fn) (fs fs' : FState)
+    (hinv : PbInv c fs) (hF : ∀ f ∈ F, 0 ≤ f.height)
+    (h : footLoop c guard pie bs y F fs = (.ok, fs')) (hrep : fs'.reported = []) (hne : fs' ≠ fs) :
+    ∃ areaH, fs'.areaH = some areaH ∧
+      overflows (c.pageH - c.area.marginHeight areaH - bs) y = false := by
+  have hinv' : PbInv c fs' := by
+    have := footLoop_inv c guard pie bs y F fs hinv hF
+    rw [h] at this; exact this
+  rcases line_above_its_footnotes c guard pie bs y F fs fs' h hrep with h1 | h1
+  · rcases hinv'.2.1 with ⟨hnone, _⟩ | ⟨a, ha, _, hpb⟩
+    · exfalso
+      apply hne
+      have := footLoop_unchanged c guard pie bs y F fs (by rw [h]; exact hnone)
+      rw [h] at this
+      exact this
+    · refine ⟨a, ha, ?_⟩
+      simp only [Ctx.overflowsPage, ctxOf, hpb] at h1
+      exact h1
+  · exact absurd h1 hne
 
 /-! ### pages -/
+
+theorem lookup_mem {α : Type} (l : List (String × α)) (k : String) (a : α) (h : l.lookup k = some a) :
+    ∃ e ∈ l, e.2 = a := by
+  induction l with
+  | nil => simp at h
+  | cons x xs ih =>
+    obtain ⟨k', v⟩ := x
+    simp only [List.lookup_cons] at h
+    split at h
+    · simp only [Option.some.injEq] at h
+      exact ⟨(k', v), by simp, h⟩
+    · obtain ⟨e, he, hv⟩ := ih h
+      exact ⟨e, by simp [he], hv⟩
+
+/-- Every page type has an `@footnote` style satisfying `AreaHyp` when the unnamed rule and every named rule do. -/
+theorem areaHyp_all (d : FDoc) (h0 : AreaHyp d.area) (hn : ∀ e ∈ d.named, AreaHyp e.2) :
+    ∀ name, AreaHyp (d.areaFor name) := by
+  intro name
+  unfold FDoc.areaFor
+  split
+  · rename_i a ha
+    obtain ⟨e, he, rfl⟩ := lookup_mem _ _ _ ha
+    exact hn e he
+  · exact h0
+
 
 def pageSourceF (d : FDoc) (p : FPage) : FootBox := if p.page.type.blank then emptyRootF d.root else d.root
 
 theorem heightsOk_emptyRootF (b : FootBox) : HeightsOk (emptyRootF b) := by
   cases b <;> simp [emptyRootF, HeightsOk, HeightsOkList]
 
-theorem placeReported_inv (c : FCtx) (L : List Fn) (i : Nat) (fs : FState) (ha : AreaHyp c.area) (h : PbInv c fs)
+theorem placeReported_inv (c : FCtx) (L : List Fn) (i : Nat) (fs : FState) (h : PbInv c fs)
     (hL : ∀ f ∈ L, 0 ≤ f.height) : PbInv c (placeReported c L i fs) := by
   induction L generalizing i fs with
   | nil => exact h
   | cons f rest ih =>
     have hf := hL f (by simp)
     have h0 : PbInv c { fs with pending := fs.pending ++ [f] } := h
-    have h1 := layoutFootnote_inv c _ f ha h0 hf
+    have h1 := layoutFootnote_inv c _ f h0 hf
     unfold placeReported
     dsimp only
     split
-    · have h2 := reportFootnote_inv c _ f ha h1 hf
+    · have h2 := reportFootnote_inv c _ f h1 hf
       exact ⟨h2.1, h2.2.1, fun g hg => hL g hg⟩
     · exact ih _ _ h1 (fun g hg => hL g (by simp [hg]))
 
 /-- One page: the lines fit, and what the page postpones still has non-negative heights. -/
-theorem remakePageF_line_fits (d : FDoc) (hd : DecoOk d.root.erase) (hh : HeightsOk d.root) (ha : AreaHyp d.area)
+theorem remakePageF_line_fits (d : FDoc) (hd : DecoOk d.root.erase) (hh : HeightsOk d.root)
+    (ha : ∀ name, AreaHyp (d.areaFor name))
     (index : Nat) (resume : Option Resume) (np : NextPage) (right : Bool) (pending reported : List Fn)
     (hrep : ∀ f ∈ reported, 0 ≤ f.height) (p : FPage)
     (hp : remakePageF d index resume np right pending reported = some p) :
@@ -72,17 +225,17 @@ theorem remakePageF_line_fits (d : FDoc) (hd : DecoOk d.root.erase) (hh : Height
   · cases hp
   · rename_i f hfrag
     simp only [Option.some.injEq] at hp
-    have hinv0 : PbInv (pageCtx d index np) (pageStart d (pageCtx d index np) pending reported) := by
+    have hinv0 : PbInv (pageCtxOf d index resume np right reported) (pageStart d (pageCtxOf d index resume np right reported) pending reported) := by
       unfold pageStart
-      apply placeReported_inv _ _ _ _ ha _ hrep
+      apply placeReported_inv _ _ _ _ _ hrep
       exact ⟨by simp, Or.inl ⟨rfl, rfl⟩, by simp⟩
     have hsrc : DecoOk (if isBlankF d resume np right reported = true then emptyRootF d.root else d.root).erase ∧
         HeightsOk (if isBlankF d resume np right reported = true then emptyRootF d.root else d.root) := by
       split
       · exact ⟨by rw [erase_emptyRootF]; exact decoOk_emptyRoot _ hd, heightsOk_emptyRootF _⟩
       · exact ⟨hd, hh⟩
-    have hfit := boxF_fits _ hsrc.1 hsrc.2 (pageCtx d index np) 0 0 0 resume false true []
-      (pageStart d (pageCtx d index np) pending reported) ha hinv0
+    have hfit := boxF_fits _ hsrc.1 hsrc.2 (pageCtxOf d index resume np right reported) 0 0 0 resume false true []
+      (pageStart d (pageCtxOf d index resume np right reported) pending reported) (ha _) hinv0
     subst hp
     constructor
     · intro l hl
@@ -91,13 +244,14 @@ theorem remakePageF_line_fits (d : FDoc) (hd : DecoOk d.root.erase) (hh : Height
       simp only [pageSourceF] at hex hmem
       rcases hfit.1 f hfrag l hmem with h | h
       · rw [hex] at h; cases h
-      · simp only [ctxH, pageCtx, Ctx.overflowsPage, overflows, PlacedLine.bottom] at h
+      · simp only [ctxH, pageCtx, pageCtxOf, Ctx.overflowsPage, overflows, PlacedLine.bottom] at h
         grind
     · exact hfit.2.2.2
 
 /-- **Line fits, all pages of a footnote document** (C03): on every page, every line but possibly the first ends
 above the bottom of the page box. -/
-theorem paginate_line_fits (d : FDoc) (hd : DecoOk d.root.erase) (hh : HeightsOk d.root) (ha : AreaHyp d.area)
+theorem paginate_line_fits (d : FDoc) (hd : DecoOk d.root.erase) (hh : HeightsOk d.root)
+    (ha : ∀ name, AreaHyp (d.areaFor name))
     (fuel : Nat) (pages : List FPage) (h : paginateFoot d fuel = some pages) :
     ∀ p ∈ pages, ∀ l ∈ (placedLines p.page.root true (pageSourceF d p).erase).tail,
       l.y + l.lineH ≤ d.pageH * (1 + 1 / 1000000000) := by
@@ -149,8 +303,9 @@ theorem area_stacked (y : Rat) (l : List Fn) :
 
 /-! ### non-vacuity -/
 
-example : DecoOk C01Foot.exDoc.root.erase ∧ HeightsOk C01Foot.exDoc.root ∧ AreaHyp C01Foot.exDoc.area := by
-  refine ⟨?_, ?_, ⟨rfl, rfl, rfl, by decide +kernel⟩⟩
+example : DecoOk C01Foot.exDoc.root.erase ∧ HeightsOk C01Foot.exDoc.root ∧
+    ∀ name, AreaHyp (C01Foot.exDoc.areaFor name) := by
+  refine ⟨?_, ?_, areaHyp_all _ ⟨by decide +kernel⟩ (by intro e he; cases he)⟩
   · simp [C01Foot.exDoc, C01Foot.exDocOf, FootBox.erase, eraseList, DecoOk, DecoOkList, PStyle.DecoOk, C01Foot.exSt]
     decide +kernel
   · simp only [C01Foot.exDoc, C01Foot.exDocOf, HeightsOk, HeightsOkList, List.mem_cons, List.not_mem_nil, or_false,
@@ -165,5 +320,18 @@ example : (paginateFoot C01Foot.exDoc 20).map (fun ps => ps.map (fun p =>
 /-- … and the footnote areas (y, height) on the 40px pages: 10px at y = 30 under lines ending at 30, etc. -/
 example : (paginateFoot C01Foot.exDoc 20).map (fun ps => ps.map (fun p => p.area.map (fun a => (a.y, a.h)))) =
     some [some (30, 10), some (20, 20), some (10, 30)] := by decide +kernel
+
+/-- `line_above_area_top` is not vacuous: a line ending at 30 on a 40px page keeps its 10px footnote (area height
+10, top at 30, nothing postponed); with a 20px footnote the footnote is postponed instead. -/
+example :
+    let c : FCtx := { area := C01Foot.exArea, pageH := 40, currentPage := 1, forcedBreak := false, tbl := [] }
+    let f : Fn := ⟨1, 1, 10, .auto, ""⟩
+    let g : Fn := ⟨2, 2, 10, .auto, ""⟩
+    let fs : FState := { pending := [f, g], cur := [], reported := [], pageBottom := 40, areaH := none }
+    ((footLoop c true false 0 30 [f] fs).1, (footLoop c true false 0 30 [f] fs).2.reported.length,
+      (footLoop c true false 0 30 [f] fs).2.areaH, (footLoop c true false 0 30 [f] fs).2.pageBottom) =
+      (FootOut.ok, 0, some 10, 30) ∧
+    (footLoop c true false 0 30 [g] fs).2.reported.length = 1 := by
+  decide +kernel
 
 end Wp.C03FootGeo
